@@ -221,6 +221,22 @@ def logsumexp(a, axis=None, **k):
   return NP.log(s)
 
 
+def percentile(a, q, **k):
+  """uninterpreted function of the MULTISET of its input (np.percentile sorts): one variable per
+  (canonical multiset, q) on a path"""
+  if not _isobj(a):
+    return _np.percentile(a, q, **k)
+  e = ex()
+  ids = tuple(sorted(core.canon(term_of(v, True)).get_id() if is_sym(v) else hash(('c', float(v))) for v in _np.asarray(a, dtype=object).flat))
+  out = []
+  for qq in (_np.atleast_1d(q)):
+    key = ('pct', ids, float(qq))
+    if key not in e.cache:
+      e.cache[key] = (a, Sym(e.fresh('pct')))
+    out.append(e.cache[key][1])
+  return core.obj_array(out) if _np.ndim(q) else out[0]
+
+
 def stable_cumsum(arr, axis=None, **k):
   if not _isobj(arr):
     return _real('sklearn.utils.extmath', 'stable_cumsum')(arr, axis=axis, **k)
@@ -244,9 +260,24 @@ def _sq(A):
 
 
 def eigh_contract(A, *a, **k):
-  """fresh (w, V) with V^T V = I, V diag(w) V^T = sym(A), w ascending."""
+  """fresh (w, V) with V^T V = I, V diag(w) V^T = sym(A), w ascending.  A deterministic routine: two
+  calls with (canonically) equal arguments on one path return the same result (memoised)."""
   A, d = _sq(A)
   e = ex()
+  try:
+    key = ('eigh',) + tuple(core.canon(term_of(A[i, j], True)).get_id() for i in range(d) for j in range(i + 1))
+  except Exception:   # noqa
+    key = None
+  if key is not None and key in e.cache:
+    w0, V0 = e.cache[key][1]
+    return w0.copy(), V0.copy()
+  res = _eigh_contract(A, d, e)
+  if key is not None:
+    e.cache[key] = (A, (res[0].copy(), res[1].copy()))
+  return res
+
+
+def _eigh_contract(A, d, e):
   if d == 1:
     s = e.fresh('eigv')
     e.trace.append(('a', s * s == 1))
